@@ -227,6 +227,7 @@ class Workspace(AbstractContextManager):
     @contributors.setter
     def contributors(self, value: list[str]):
         self._contributors = np.asarray(value, dtype=h5py.special_dtype(vlen=str))
+        self._update_project_attributes()
 
     def copy_to_parent(
         self,
@@ -675,6 +676,7 @@ class Workspace(AbstractContextManager):
     @distance_unit.setter
     def distance_unit(self, value: str):
         self._distance_unit = value
+        self._update_project_attributes()
 
     def fetch_array_attribute(self, entity: Entity, key: str = "cells") -> np.ndarray:
         """
@@ -972,6 +974,7 @@ class Workspace(AbstractContextManager):
     @ga_version.setter
     def ga_version(self, value: str):
         self._ga_version = value
+        self._update_project_attributes()
 
     def get_entity(self, name: str | uuid.UUID) -> list[Entity | PropertyGroup | None]:
         """
@@ -1217,7 +1220,10 @@ class Workspace(AbstractContextManager):
         proj_attributes = self._io_call(H5Reader.fetch_project_attributes, mode="r")
 
         for key, attr in proj_attributes.items():
-            setattr(self, self._attribute_map[key], attr)
+            name = self._attribute_map[key]
+            if name == "contributors":
+                attr = np.asarray(attr, dtype=h5py.special_dtype(vlen=str))
+            setattr(self, f"_{name}", attr)
 
         self.fetch_or_create_root()
 
@@ -1412,6 +1418,7 @@ class Workspace(AbstractContextManager):
     @version.setter
     def version(self, value: float):
         self._version = value
+        self._update_project_attributes()
 
     @property
     def workspace(self) -> Workspace:
@@ -1419,6 +1426,13 @@ class Workspace(AbstractContextManager):
         This workspace instance itself.
         """
         return self
+
+    def _update_project_attributes(self):
+        """
+        Write the project attributes of an open workspace to geoh5.
+        """
+        if self._geoh5:
+            self._io_call(H5Writer.write_attributes, self, mode="r+")
 
     def _io_call(self, fun, *args, mode="r", **kwargs):
         """
